@@ -275,19 +275,29 @@ Definition get_nameid (x : input) (nformat : string) : option (nid * nsrc) :=
       else Some ({| n_format := Some nformat; n_spnq := Some spnq; n_nq := Some nq |}, Fresh)
   end.
 
-(* nformat = the format nim_args resolves for a constructed identifier *)
-Definition choose_name_id_with (nformat : string) (x : input) : option (nid * nsrc) :=
+(* the format filter of the store search as coded before 9a92c673: the NameIDPolicy's Format attribute
+   (possibly None) when a NameIDPolicy was given, no filter at all otherwise (kept for the refutation theorem
+   and the regression class of Corr.cls) *)
+Definition kwa_format_v0 (x : input) : option (option string) :=
+  match a_nidpolicy (arg x) with Some p => Some (p_format p) | None => None end.
+
+(* after "fix: without a requested Format an identifier of any format was re-used" (9a92c673):
+   kwa["format"] = getattr(name_id_policy, "format", None) or args["policy"].get_nameid_format(sp_entity_id),
+   i.e. the very format nim_args resolves for a constructed identifier *)
+Definition kwa_format (x : input) : option (option string) := Some (Some (nim_format x)).
+
+(* kwa = format filter of find_nameid; nformat = the format nim_args resolves for a constructed identifier *)
+Definition choose_name_id_with (kwa : option (option string)) (nformat : string) (x : input) : option (nid * nsrc) :=
   match a_name_id (arg x) with
   | Some n => Some (n, Given)
   | None =>
-      let kwa_format := match a_nidpolicy (arg x) with Some p => Some (p_format p) | None => None end in
-      match find_nameid (stored x) (snq_of x) kwa_format with
+      match find_nameid (stored x) (snq_of x) kwa with
       | Some (k, n) => Some (n, Reused k)
       | None => get_nameid x nformat
       end
   end.
 
-Definition choose_name_id (x : input) : option (nid * nsrc) := choose_name_id_with (nim_format x) x.
+Definition choose_name_id (x : input) : option (nid * nsrc) := choose_name_id_with (kwa_format x) (nim_format x) x.
 
 (* ---------------------------------------------------------------- update_farg *)
 Definition update_farg (in_response_to : option string) (consumer_url : string) (f : option farg) : farg :=
@@ -337,8 +347,8 @@ Definition signatures (x : input) : option (option (string * string) * option (s
   else Some (None, sa).
 
 (* ---------------------------------------------------------------- create_authn_response *)
-Definition create_with (nformat : string) (x : input) : outcome :=
-  match choose_name_id_with nformat x with
+Definition create_with (kwa : option (option string)) (nformat : string) (x : input) : outcome :=
+  match choose_name_id_with kwa nformat x with
   | None => Error ENameId
   | Some (name_id, src) =>
       let a := arg x in
@@ -370,10 +380,13 @@ Definition create_with (nformat : string) (x : input) : outcome :=
       end
   end.
 
-Definition create (x : input) : outcome := create_with (nim_format x) x.
+Definition create (x : input) : outcome := create_with (kwa_format x) (nim_format x) x.
 
-(* the behaviour before d41562bb *)
-Definition create_v0 (x : input) : outcome := create_with (nim_format_v0 x) x.
+(* the behaviour before d41562bb (and before 9a92c673) *)
+Definition create_v0 (x : input) : outcome := create_with (kwa_format_v0 x) (nim_format_v0 x) x.
+
+(* the behaviour between d41562bb and 9a92c673: store search without the format in force *)
+Definition create_f2_v0 (x : input) : outcome := create_with (kwa_format_v0 x) (nim_format x) x.
 
 (* ---------------------------------------------------------------- the receiving side, by composition *)
 From Verif Require C01.Model C04.Model C05.Model C06.Model.
